@@ -27,7 +27,8 @@ def gen_query(rng):
     if k < 0.35:
         return v, "direct"
     if k < 0.5:
-        return ("filter", v, relgen.gen_pred(rng, types, 1)), "from+where"
+        # atoms only: OR/NOT over NULLs belongs to C02 (class dominated-null), not to VALUES
+        return ("filter", v, relgen.gen_pred(rng, types, 0)), "from+where"
     if k < 0.6:
         i = rng.randrange(len(types))
         return ("project", v, [col(i), ("isnull", col(i))]), "from+project"
